@@ -1227,7 +1227,7 @@ def inline_new_helpers(repo, new_funcs, resolve_helper, bind_args, max_rounds=2)
                         h, skip = resolve_helper(repo, f, st.iter)
                         if h is not None and (h.qname in new_funcs or _is_local_procedure(f.node, h.node, allow_nested=True)) and h.node is not f.node and _is_generator(h.node) \
                                 and not h.node.decorator_list:
-                            b = bind_args(h, skip, st.iter)
+                            b = _bind_receiver(h, skip, st.iter, bind_args(h, skip, st.iter), f)      # `other.gen()`: the generator's self is `other`
                             if b is not None:
                                 counter[0] += 1
                                 outside = set()
